@@ -99,6 +99,18 @@ func NondetLen(lo, hi int) int {
 	return v
 }
 
+// PadBigEndian: slice left-padded with zeros to length n (slice itself when it is at least n long). Under the
+// symbolic executor it consumes the undecided-length bytes of a big.Int without forking on the length: it is the
+// summary of keystore.padByteSlice used by the C13 harnesses (and checked against the real function there).
+func PadBigEndian(slice []byte, n int) []byte {
+	if len(slice) >= n {
+		return slice
+	}
+	out := make([]byte, n)
+	copy(out[n-len(slice):], slice)
+	return out
+}
+
 // NondetRange returns an arbitrary integer in [lo,hi].
 func NondetRange(lo, hi int) int {
 	v := int(int64(next()))
